@@ -6,7 +6,8 @@ by builder arguments, the primitive narrow-phase dispatch lists, Warp's module t
 observation (state after one step, contacts of a collision pass) must be bit-identical to running the target alone.
 Items are chosen to collide on every cache-key form: same kernel builder with different static arguments (nv, njmax,
 cone, jacobian, warn_overflow), NATIVECCD on/off (box-box primitive vs convex), a model that introduces new primitive
-pair types, different nworld.
+pair types, different nworld, the same model with a different maximum contact dimension (condim 4 vs 6 on the elliptic sparse
+Newton path), implicit-integrator models of equal (nworld, nbody, nv).
 """
 
 import json
